@@ -248,6 +248,12 @@ class FlagReach:
             return True
         for e, pol in cfg.conditions(st):
             v = self._value(cfg, e, st, env)
+            if v is UNKNOWN and isinstance(e, ast.Compare) and len(e.ops) == 1 and isinstance(e.ops[0], (ast.Is, ast.IsNot, ast.Eq, ast.NotEq)):
+                # ``flag is True`` / ``flag == False`` / ``flag is not None``: decided from the known constant
+                lv, rv = self._value(cfg, e.left, st, env), _flag_const(e.comparators[0])
+                if lv is not UNKNOWN and rv is not UNKNOWN:
+                    same = (lv is rv) if isinstance(e.ops[0], (ast.Is, ast.IsNot)) else (lv == rv and type(lv) is type(rv))
+                    v = same if isinstance(e.ops[0], (ast.Is, ast.Eq)) else not same
             if v is not UNKNOWN and bool(v) != pol:
                 self.dead_edges.append((fi.fq, call, f"{norm(e)} is {v!r}"))
                 return False
@@ -583,6 +589,26 @@ def _augassign_in_place(f: ast.AST, sh) -> bool:
     return isinstance(v, (ast.List, ast.ListComp, ast.Set, ast.SetComp)) or (isinstance(v, ast.Call) and norm(v.func) in ("list", "set"))
 
 
+_OP_CLASSES = {
+    "adds-keys": ("item-store", "call .update()", "call .setdefault()"),
+    "adds-elements": ("call .append()", "call .extend()", "call .insert()", "call .add()"),
+    "removes-elements": ("call .pop()", "call .remove()", "call .discard()", "call .popitem()", "item-del"),
+}
+
+
+def _op_class(sh, how: str) -> Optional[str]:
+    """Effect class of a mutation spelling; an augmented assignment is classified by its operator."""
+    for k, members in _OP_CLASSES.items():
+        if how in members:
+            return k
+    if how == "augassign" and sh is not None and isinstance(sh.node, ast.AugAssign):
+        if isinstance(sh.node.op, ast.BitOr):
+            return "adds-keys"
+        if isinstance(sh.node.op, ast.Add):
+            return "adds-elements"
+    return None
+
+
 def _r32c(chk) -> None:
     repo = chk.repo
     n_fn = n_sites = 0
@@ -606,7 +632,9 @@ def _r32c(chk) -> None:
                         n_sites += 1
                         how = sh.how.split(" via ")[0]
                         row = REVIEWED_ARG_MUTATIONS.get((cons, path))
-                        ok = row is not None and how in row[1]
+                        # a reviewed operation covers the other spellings of the same effect (adds keys / adds
+                        # elements / removes elements): ``m[k] = v`` ~ ``m.update({k: v})``, ``xs.append(x)`` ~ ``xs += [x]``
+                        ok = row is not None and (how in row[1] or (_op_class(sh, how) is not None and _op_class(sh, how) in {_op_class(None, r) for r in row[1]}))
                         if ok:
                             seen_rows.add((cons, path))
                         chk.require(
@@ -839,6 +867,122 @@ VARIANTS: List[Variant] = [
         "QUIET", None, "another way of copying the caller's list before extending it",
     ),
     # ---- R32a ---------------------------------------------------------------------------
+    # behaviour-preserving refactors: must stay quiet
+    Variant(
+        "quiet-special-codes-update", LINTER,
+        '        for special_rule in ["PRS", "LXR", "TMP"]:\n            output_map[special_rule] = {special_rule}\n',
+        '        output_map.update({code: {code} for code in ("PRS", "LXR", "TMP")})\n',
+        "QUIET", None, 'three item stores as one update()',
+    ),
+    Variant(
+        "quiet-special-codes-setdefault-free", LINTER,
+        '        output_map = reference_map\n        # Add the special rules so they can be excluded for `disable_noqa_except` usage\n        for special_rule in ["PRS", "LXR", "TMP"]:\n            output_map[special_rule] = {special_rule}\n',
+        '        # Add the special rules so they can be excluded for `disable_noqa_except` usage\n        for special_rule in ["PRS", "LXR", "TMP"]:\n            reference_map[special_rule] = {special_rule}\n        output_map = reference_map\n',
+        "QUIET", None, 'stores through the parameter itself, alias bound afterwards',
+    ),
+    Variant(
+        "quiet-out-lists-plus-eq", BASE,
+        '        new_lerrs.append(lerr)\n        new_fixes.extend(res.fixes)\n',
+        '        new_lerrs += [lerr]\n        new_fixes += res.fixes\n',
+        "QUIET", None, 'append/extend spelled +=',
+    ),
+    Variant(
+        "quiet-out-lists-extend-one", BASE,
+        '        new_lerrs.append(lerr)\n',
+        '        new_lerrs.extend([lerr])\n',
+        "QUIET", None, 'append spelled extend([x])',
+    ),
+    Variant(
+        "quiet-time-dict-direct", LINTER,
+        '        time_dict["linting"] = time.monotonic() - t0\n',
+        '        parsed.time_dict["linting"] = time.monotonic() - t0\n',
+        "QUIET", None, 'item store through the attribute instead of the alias',
+    ),
+    Variant(
+        "quiet-time-dict-update", LINTER,
+        '        time_dict["linting"] = time.monotonic() - t0\n',
+        '        time_dict.update(linting=time.monotonic() - t0)\n',
+        "QUIET", None, 'item store spelled update()',
+    ),
+    Variant(
+        "quiet-so-slices-del", "src/sqlfluff/core/linter/linted_file.py",
+        '                source_only_slices.pop(0)\n',
+        '                del source_only_slices[0]\n',
+        "QUIET", None, 'pop(0) whose result is unused spelled del xs[0]',
+    ),
+    Variant(
+        "quiet-used-setattr-loop-var", "src/sqlfluff/core/rules/noqa.py",
+        '        for idx, ignore_rule in enumerate(ignore_rules):\n',
+        '        for ignore_rule in ignore_rules:\n',
+        "QUIET", None, 'enumerate dropped (index unused)',
+    ),
+    Variant(
+        "quiet-persist-gate-inverted", LINTER,
+        '                if apply_fixes:\n                    num_tmp_prs_errors',
+        '                if not apply_fixes:\n                    continue\n                if True:\n                    num_tmp_prs_errors',
+        "QUIET", None, 'gate as an early continue',
+    ),
+    Variant(
+        "quiet-persist-gate-pass-else", LINTER,
+        '                if apply_fixes:\n                    num_tmp_prs_errors',
+        '                if not apply_fixes:\n                    pass\n                else:\n                    num_tmp_prs_errors',
+        "QUIET", None, 'gate as the else arm of the negated test',
+    ),
+    Variant(
+        "quiet-persist-gate-is-true", LINTER,
+        '                if apply_fixes:\n                    num_tmp_prs_errors',
+        '                if apply_fixes is True:\n                    num_tmp_prs_errors',
+        "QUIET", None, '`apply_fixes is True` (the parameter is a bool)',
+    ),
+    Variant(
+        "quiet-live-context-dict-call", "src/sqlfluff/core/templaters/base.py",
+        '        live_context = {}\n        live_context.update(self.default_context)\n',
+        '        live_context = dict(self.default_context)\n',
+        "QUIET", None, 'fresh dict by dict(..)',
+    ),
+    Variant(
+        "quiet-live-context-star", "src/sqlfluff/core/templaters/base.py",
+        '        live_context = {}\n        live_context.update(self.default_context)\n        live_context.update(loaded_context)\n        live_context.update(self.override_context)\n',
+        '        live_context = {**self.default_context, **loaded_context, **self.override_context}\n',
+        "QUIET", None, 'fresh dict by ** unpacking',
+    ),
+    Variant(
+        "quiet-discard-fixes-clear-free", BASE,
+        '                lint_result.fixes = []\n',
+        '                lint_result.fixes = list()\n',
+        "QUIET", None, '[] spelled list()',
+    ),
+    # ---- breaking twins of the quiet spellings above ---------------------------------------------
+    Variant(
+        "reference-map-cleared", LINTER,
+        '        output_map = reference_map\n        # Add the special rules',
+        '        reference_map.clear()\n        output_map = reference_map\n        # Add the special rules',
+        "R32c", "allowed_rule_ref_map", 'twin of quiet-special-codes-update: another class of operation on the reviewed parameter',
+    ),
+    Variant(
+        "out-list-reset", BASE,
+        '        new_lerrs.append(lerr)\n',
+        '        new_lerrs.clear()\n        new_lerrs.append(lerr)\n',
+        "R32c", "_process_lint_result", 'twin of quiet-out-lists-plus-eq',
+    ),
+    Variant(
+        "out-list-minus", BASE,
+        '        new_lerrs.append(lerr)\n',
+        '        new_lerrs *= 1\n        new_lerrs.append(lerr)\n',
+        "R32c", "_process_lint_result", 'twin: an augmented assignment that is not an addition',
+    ),
+    Variant(
+        "work-list-appended", "src/sqlfluff/core/linter/linted_file.py",
+        '                source_only_slices.pop(0)\n',
+        '                source_only_slices.pop(0)\n                source_only_slices.append(next_so_slice)\n',
+        "R32c", "_slice_source_file_using_patches", 'twin of quiet-so-slices-del: the work list grows',
+    ),
+    Variant(
+        "gate-is-false", LINTER,
+        '                if apply_fixes:\n                    num_tmp_prs_errors',
+        '                if apply_fixes is False:\n                    num_tmp_prs_errors',
+        "R32a", "lint", 'twin of quiet-persist-gate-is-true',
+    ),
     Variant(
         "apply-fixes-defaults-to-true", LINTER,
         "        apply_fixes: bool = False,\n",
